@@ -397,6 +397,9 @@ fn dispatch_kind(req: &Value, f_parse: bool) -> Value {
         "String" => go!(String),
         #[cfg(feature = "ss")]
         "SmallString" => go!(purl::SmallString),
+        // without the smartstring feature the crate's small string *is* String (private alias)
+        #[cfg(not(feature = "ss"))]
+        "SmallString" => go!(String),
         "CowB" => go!(CowB),
         "CowO" => go!(CowO),
         #[cfg(feature = "pt")]
